@@ -320,6 +320,10 @@ class Oracle:
         accepted_by = {id(v): [M for M in members if self.inh(v, M)] for v in vals}
         for M in members:
             self.stats["members"] += 1
+            if M is Any:
+                self.stats["anys"] += 1
+                errs.append(("any-outside-container", where, f"Any as a member of {tstr(T)}", None))
+                continue
             b = [(v, c and len(accepted_by[id(v)]) == 1) for v, c in cvals if any(M is x for x in accepted_by[id(v)])]
             bv = [v for v, _ in b]
             org = typing.get_origin(M)
